@@ -47,6 +47,10 @@ NOTES.update({
  "w5-C11-m3": "missed until wave 13: the trigger is a previous symbol carrying an ECI on the same Decoder instance; a third of the instance-reuse histories now start with a symbol that announces another character set (FLG(n) + digits; unjudged itself, the property does not name ECIs), after which the conforming symbol must still decode exactly",
 })
 NOTES.update({
+ "w13-C17-m2": "NOT decided: the statement does not fix the luminance of a semi-transparent pixel (the unchanged generic path applies alpha to already premultiplied colour; the change composites the straight colour of an *image.NRGBA over white, 123 instead of 120 for NRGBA{40,0,3,137}, arguably the more usual value); the check's model states luminance only for alpha 0 (white) and 255, where the change is exact, so it neither demands one formula nor that two Go image types agree to the last unit",
+ "w13-C18-m1": "missed at first: the ALLOWED_EAN_EXTENSIONS list in the shared hints map was ascending, so sorting it in place wrote nothing; the list is now in a user's order (5, 0, 2); caught by the race oracle",
+})
+NOTES.update({
  "w6-C16-m1": "NOT caught: it needs a ragged bool map whose later row is longer than the first; ragged input is outside 'in-range arguments' (the unchanged tree panics on a ragged map whose later row is shorter)",
  "w6-C17-m1": "missed at first: after a NotFound the matrix was not asked for again; added",
  "w6-C17-m2": "missed at first: BinaryBitmap.Crop was only given valid rectangles; same-size shifted, negative-origin and outside rectangles added",
